@@ -42,7 +42,38 @@ func mregFromJSON(js string, f *Fix) *MReg {
 }
 
 // c09Recover is the recovery oracle.
-func c09Recover(f *Fix, repo string, items, tags, subjects []string, pol GCPolicy) func(w *h.World, before, after, interrupted string) []h.Violation {
+func c09Recover(f *Fix, repo string, items, tags, subjects []string, pol GCPolicy, post ...bool) func(w *h.World, before, after, interrupted string) []h.Violation {
+	inner := c09RecoverInner(f, repo, items, tags, subjects, pol)
+	if len(post) == 0 || !post[0] {
+		return inner
+	}
+	// and the store stays usable: what is acknowledged after the recovery survives an ordinary restart, also when the
+	// first request after that restart goes straight to the content (nothing has loaded the index yet)
+	return func(w *h.World, before, after, interrupted string) []h.Violation {
+		vs := inner(w, before, after, interrupted)
+		if len(vs) > 0 {
+			return vs
+		}
+		// a complete tagged image (the policy of this check collects unreferenced blobs at once, also at Close)
+		for _, b := range []string{"c", "l1"} {
+			if r := w.PushBlob(repo, f.Items[b].Data, f.Items[b].Dig); r.Status != 201 {
+				return vs // refusing is not this clause's business
+			}
+		}
+		if r := w.PutManifest(repo, "post-recovery", mtImg, f.Items["I1"].Data); r.Status != 201 {
+			return vs
+		}
+		_ = w.Reopen()
+		if r := w.Head("/v2/" + repo + "/blobs/" + f.Items["l1"].Dig); r.Status != 200 {
+			vs = append(vs, h.V("acknowledged-survives-restart", "acknowledged-after-recovery-lost-by-restart", "after a crash inside %q and the recovery, the push of a tagged image was acknowledged; after an ordinary restart HEAD of its layer (the first request) answers %s", interrupted, r))
+		} else if g := w.GetManifest(repo, "post-recovery"); g.Status != 200 {
+			vs = append(vs, h.V("acknowledged-survives-restart", "acknowledged-after-recovery-lost-by-restart", "after a crash inside %q and the recovery, the push of a tagged image was acknowledged; after an ordinary restart GET of the tag answers %s", interrupted, g))
+		}
+		return vs
+	}
+}
+
+func c09RecoverInner(f *Fix, repo string, items, tags, subjects []string, pol GCPolicy) func(w *h.World, before, after, interrupted string) []h.Violation {
 	return func(w *h.World, before, after, interrupted string) []h.Violation {
 		var vs []h.Violation
 		// every repository loads
@@ -237,7 +268,7 @@ func c09Specs(tier string) []*h.CrashSpec {
 			Ops:       ops,
 			Histories: hs,
 			ModelJSON: func(w *h.World) string { return regM(w).String() },
-			Recover:   c09Recover(f, repo, items, tags, subjects, pol),
+			Recover:   c09Recover(f, repo, items, tags, subjects, pol, st.name == "new-repository" || tier == "thorough"),
 		})
 	}
 	// an index and its children: pushing the index moves the children's entries out of index.json, deleting it by
